@@ -153,6 +153,22 @@ func genC02Pair(t *rapid.T, col *collector, k1 bool) (c02Case, bool) {
 				}
 			}
 			vb = strings.Join(lb, "\n")
+		} else if api == "ssnap" && rapid.IntRange(0, 9).Draw(t, "tokenpair") == 0 {
+			// standalone files hold the value byte for byte: `---` and `/-/-/-/` lines are different text there
+			ls := strings.Split(genText(t, o), "\n")
+			ls = append(ls, rapid.SampledFrom([]string{"---", "/-/-/-/"}).Draw(t, "tok"))
+			ls = rapid.Permutation(ls).Draw(t, "perm")
+			va = strings.Join(ls, "\n")
+			lb := append([]string{}, ls...)
+			for i, l := range lb {
+				switch l {
+				case "---":
+					lb[i] = "/-/-/-/"
+				case "/-/-/-/":
+					lb[i] = "---"
+				}
+			}
+			vb = strings.Join(lb, "\n")
 		} else if rapid.IntRange(0, 9).Draw(t, "bompair") == 0 {
 			// the same text with and without a byte order mark / zero-width character at the very start or end
 			vb = genText(t, o)
